@@ -483,6 +483,21 @@ def systematic(seed: int) -> List[J]:
                                        ("open", "open")))
     for it in ITYPES:
         out.append(texttable(r, it, 10, 1, "ranges"))
+    # ... and range scales whose explicit inverse value is a falsy one (0, 0.0) that differs from
+    # the lower limit: a value like any other
+    for it in ITYPES:
+        if it == "A_UINT32":
+            continue  # (0 can only be the lower limit there)
+        z: Any = 0 if it in INTS else 0.0
+        lo, hi = (-3, 4) if it in INTS else (-2.5, 4.0)
+        for nsc in (1, 2):
+            scales = [{"const": {"vt": "t0"}, "lo": (lo, "CLOSED"), "hi": (hi, "CLOSED"), "inv": {"v": z}}]
+            if nsc == 2:
+                scales.append({"const": {"vt": "t1"}, "lo": (hi + 1, "CLOSED"), "hi": (hi + 6, "CLOSED"),
+                               "inv": {"v": hi + 2}})
+            m = {"cat": "TEXTTABLE", "i2p": {"scales": scales}}
+            out.append(case("TEXTTABLE", it, "A_UNICODE2STRING", bits_for(it, 1), m,
+                            f"ranges+inv-zero/{nsc}", kinds_of(m)))
     # continuous, strictly monotone piecewise-linear methods with decimal coefficients: the two
     # segments' values at a common boundary differ by rounding noise only
     for it in ("A_UINT32", "A_INT32"):
